@@ -56,8 +56,8 @@ func init() {
 		Assumptions: commonAssumptions})
 	describe(&PropertyDoc{ID: "C07",
 		Explanation: "Structural facts of IPv4 host recognition.",
-		Decides:     []string{"no sign-accepting strconv conversion sees text that was not validated against the digit set of its radix (FLOW-strconv)", "the IPv4 parser runs only for special hosts that end in a number (FLOW-ipv4)", "the radix and stripped prefix that reach the conversion equal the standard's table on every realisable valuation of the prefix/length tests (TAB-ipv4prefix)", "no integer conversion of a parsed number loses a value the parse can return (FLOW-width)", "rejection points are the standard's (SM-failpoints rows)", "more than four parts and a non-last part above 255 are exactly the counter values rejected (TAB-thresholds)", "digit tables are exact (TAB-ascii)"},
-		NotDecided:  []string{"assembly of the 32-bit value from the parts, and serialisation", "the ends-in-a-number decision beyond its call structure"},
+		Decides:     []string{"no sign-accepting strconv conversion sees text that was not validated against the digit set of its radix (FLOW-strconv)", "the IPv4 parser runs only for special hosts that end in a number (FLOW-ipv4)", "the radix and stripped prefix that reach the conversion equal the standard's table on every realisable valuation of the prefix/length tests (TAB-ipv4prefix)", "no integer conversion of a parsed number loses a value the parse can return (FLOW-width)", "rejection points are the standard's (SM-failpoints rows)", "more than four parts and a non-last part above 255 are exactly the counter values rejected (TAB-thresholds)", "digit tables are exact (TAB-ascii)", "the last part is rejected from 256^(5-n) on for n = 1..4 parts, and part i of the others is weighed by 256^(3-i): the expressions are folded on the SSA form per value of n and i (TAB-ipv4limit)"},
+		NotDecided:  []string{"the serialisation of the 32-bit value; an assembly of the value in a form other than weight times part (Horner form)", "the ends-in-a-number decision beyond its call structure"},
 		Assumptions: commonAssumptions})
 	describe(&PropertyDoc{ID: "C08",
 		Explanation: "Structural facts of IPv6 host acceptance, and two abstract interpretations over finite partitions: the serializer per zero / non-zero pattern of the pieces, the parser's tail per end state.",
